@@ -268,7 +268,7 @@ func main() {
 		exhaustive = append(exhaustive, exh{s, cuts})
 		nEx += len(cuts)
 	}
-	nRand := c.Pick(3000, 120000)
+	nRand := c.Pick(3000, 400000)
 	c.Note("exhaustive_part", fmt.Sprintf("every single and double cut point of %d short streams (<= 150 bytes): %d segmentations; plus %d random streams with 0..20 cuts, 1-byte-at-a-time and all-in-one writes", nShort, nEx, nRand))
 	caseNo := uint32(0)
 	from, to := c.Range(nEx + nRand)
